@@ -4,7 +4,7 @@ export GOVC_EVIDENCE_DIR=/tmp/wt/evidence-scratch
 # check of its property against the clone, undo; record the outcome in the seed's meta.json (verif_result)
 cd /verif
 DIRS="$@"; [ -z "$DIRS" ] && DIRS=$(ls -d /verif/seeded/*/)
-R=/tmp/wt/recheck
+R=/tmp/wt/recheck-$$
 rm -rf $R; mkdir -p /tmp/wt; git clone -q /repo $R || exit 2
 for D in $DIRS; do
   D=${D%/}; PID=$(python3 -c "import json;print(json.load(open('$D/meta.json'))['property'])")
